@@ -26,9 +26,10 @@ def run(tier, seed):
     ctx.replay(g, BinningsAdapter(POS["int"], 0), {"all"}, label="int/sp0")
     ctx.replay(without(g, {"PrettyRule"}), BinningsAdapter(POS["neg"], 1), {"all"}, label="neg/sp1")
     gs = without(g, RULES)
-    for pe, sp in [("ulp", 1), ("decimal", 2), ("huge", 0)] + ([("tiny", 1), ("offset", 2), ("dyadic", 0)] if tier == "thorough" else []):
+    for pe, sp in [("ulp", 1), ("decimal", 2), ("huge", 0)] + ([("offset", 2), ("dyadic", 0)] if tier == "thorough" else []):
         ctx.replay(gs, BinningsAdapter(POS[pe], sp), {"all"}, label=f"{pe}/sp{sp}")
     trace_part(ctx, tier)
+    # (the `tiny` embedding is not used here: is_regular / is_consecutive take explicit numpy tolerances by design)
     ctx.assumptions = ["doane bin counts, exponential bins with non-integer logs and astropy-backed methods are not decided by the model "
                        "(structural checks only / out of scope)", "numpy.linspace / percentile results are compared with the exact rationals within 4 ulp "
                        "and bit-for-bit with numpy.histogram_bin_edges, the reference the statement names"]
